@@ -38,7 +38,7 @@ F = [
  ("C19","F16","fixed",commit("decimal character"),"known/C19/F16-decimal-leading-zero.json","decimal character references with a leading zero were parsed as octal"),
  ("C20","F14","fixed",commit("renderer panics"),"known/C20/F14-late-kind.json","renderer indexed its dispatch table with a node kind created after initialisation: panic"),
  ("C06","F6","fixed",commit("table cell renderer"),"known/C06/F6-table-style-rerender.json","table cell renderer stored the computed style in the node: second render of the same tree differs"),
- ("C12","F15","fixed",commit("ForceNewline"),"known/C12/F15-forcenewline-append.json","Segment.Value appended a newline into the spare capacity of the caller's source slice"),
+ ("C12","F15","fixed",commit("writes into the source buffer"),"known/C12/F15-forcenewline-append.json","Segment.Value appended a newline into the spare capacity of the caller's source slice"),
  ("C02","F2","fixed",commit("backslash hard break"),"known/C02/F2-backslash-hard-break.json","a backslash hard line break after an escaped backslash was not recognised"),
  ("C02","F16","fixed",commit("decimal character"),"known/C02/F16-decimal-reference-in-url.json","[a](&#065;) rendered href=\"5\": decimal reference with a leading zero parsed as octal"),
  ("C02","F18","fixed",commit("nested list marker"),"known/C02/F18-tab-after-nested-marker.json","a tab after a list marker that is not at column 0 was measured from the wrong column"),
@@ -51,6 +51,9 @@ F = [
  ("C02","F27","fixed",commit("two-space hard break escapes"),"known/C02/F27-stale-escape-after-hard-break.json","a backslash followed by a two-space hard break left the escape flag set: the first character of the next line was treated as escaped ('x\\  ' newline '\\*a*' rendered \\<em>a</em>)"),
  ("C11","F27","fixed",commit("two-space hard break escapes"),"known/C11/F27-linkify-stale-escape.json","the same stale escape flag made Linkify change '\\  ' newline '\\~' (found by the thorough tier of C11)"),
  ("C02","F28","fixed",commit("invalid title line"),"known/C02/F28-invalid-title-line.json","'[foo]: /url' followed by the line '\"title\" ok': the line is a paragraph (spec example 209) but the definition still recorded the title (reported by a seeding sub-agent, reproduced and fixed)"),
+ ("C02","F29","fixed",commit("one-character info string"),"known/C02/F29-one-char-info-at-eof.json","'```c' as the last line without a line ending lost its info string (the guard assumed a trailing newline); reported by a seeding sub-agent as a by-product, reproduced by the constructed-document tier once the closing fence may be omitted at the end of the document"),
+ ("C02","F30","fixed",commit("returns nothing for an empty segment"),"known/C02/F30-blank-last-code-line-no-eol.json","' ```' LF ' ' (last line holds only the fence's indentation, no line ending): the blank content line was dropped because ForceNewline skipped empty segments; found by the final-line-ending tier"),
+ ("C02","F31","known","","known/C02/F31-quote-marker-only-last-line-in-fence.json","'> ```' LF '> ' without a final line ending: the last line is blank once the container markers are removed, and the blank content line of the fenced code block open inside the container is lost (with a final line ending it is kept): the quote parser consumes the whole line and the child never sees an empty line; in a list item ('- ```' LF '  ') Continue advances len(line)-1 and one byte of the indentation becomes content. A repair touches the block-continuation loop / reader end-of-input semantics; recorded, not repaired"),
  ("C02","F28b","fixed",commit("invalid title line"),"known/C02/F28b-invalid-title-line-dest-own-line.json","the same with the destination on a line of its own: that line was also left in the paragraph"),
 ]
 EXTRA = os.path.join(os.path.dirname(__file__), "known_extra.json")
